@@ -10,6 +10,8 @@ ASSUMPTIONS = ["<BuildId as ReadFromModule>::read_from_module and <SoName as ...
                "in the mappings::write harnesses the private fill_raw_module is replaced by a logger (its own behaviour is the c08_raw_module_* harnesses, thorough tier)", "std::path::Path::exists stubbed true; std::fs::File::open stubbed (asserts the path is not under /dev, returns NotFound)", "std::fmt::format stubbed"]
 def M(n, d, tier="quick", **kw): return H("c08_modules::" + n, desc=d, tier=tier, loops={"extend_with": 60}, timeout=1500, **kw)
 HARNESSES = [
+    M("c08_probe_named_bidok_sonok","probe","thorough",est_gb=8,mem_gb=14),
+    M("c08_probe_unnamed_nouser","probe","thorough",est_gb=8,mem_gb=14), M("c08_probe_unnamed_user","probe","thorough",est_gb=8,mem_gb=14), M("c08_probe_named_biderr","probe","thorough",est_gb=8,mem_gb=14), M("c08_probe_named_bidok","probe","thorough",est_gb=8,mem_gb=14), M("c08_probe_named_bidzero","probe","thorough",est_gb=8,mem_gb=14),
     M("c08_is_interesting", "is_interesting predicate"), M("c08_is_contained_in", "is_contained_in predicate"),
     M("c08_raw_module_replace_basename", "module record, basename replaced by SONAME (string handling: > 15 min)", "thorough", est_gb=10, mem_gb=30), M("c08_raw_module_append_soname", "module record, SONAME appended", "thorough", est_gb=10, mem_gb=30),
     M("c08_write_list", "module list: listed / skipped / caller-supplied (does not finish: 16 GB)", "thorough", est_gb=16, mem_gb=34), M("c08_write_suppressed", "target mapping inside a caller mapping is suppressed (does not finish: 16 GB)", "thorough", est_gb=16, mem_gb=34),
